@@ -1,0 +1,12 @@
+//go:build verif
+
+// Contracts for the deductive verifier in /verif (comment-only; compiled only with -tags verif).
+
+package asn1
+
+//@ func (ObjectIdentifier).Equal
+//@ props C02 C03 C10
+//@ arith int
+//@ pure
+//@ loop 1 invariant 0 <= i && i <= len(oi) && (forall j int :: 0 <= j && j < i ==> oi[j] == other[j])
+//@ ensures [pointwise-equality] result <==> sameOID(oi, other)
